@@ -2,6 +2,8 @@
 //!   <input numbers>\t<implementation output numbers>\t<signature>
 //! The input numbers start with the component number understood by `mrun` (the extracted model).
 mod codec;
+mod conn;
+mod port;
 mod robs_deque;
 mod robs_list;
 mod robs_vec;
@@ -78,6 +80,7 @@ fn main() {
     std::panic::set_hook(Box::new(|_| {}));
     match comp {
         "codec" => codec::run(seed, count, &extra, &mut out),
+        "port" => port::run(seed, count, &extra, &mut out),
         "robs_deque" => robs_deque::run(seed, count, &extra, &mut out),
         "robs_list" => robs_list::run(seed, count, &extra, &mut out),
         "robs_vec" => robs_vec::run(seed, count, &extra, &mut out),
